@@ -36,4 +36,4 @@ INIT Init
 NEXT Next
 VIEW View
 CHECK_DEADLOCK FALSE
-INVARIANTS TypeOK I_CallbackOrder I_CallbackStates I_PeerSetCoversActive I_SetMembersStarted I_NoZombieAtRest I_OneDialPerID I_OneReconnectLoop I_NoOrphanMarks I_ConnsCovered I_ConnsAtRest I_MembersHaveConn I_InboundLimit I_UnconditionalExempt I_NoOverflow
+INVARIANTS TypeOK I_CallbackOrder I_CallbackStates I_PeerSetCoversActive I_SetMembersStarted I_NoZombieAtRest I_OneDialPerID I_OneReconnectLoop I_NoOrphanMarks I_ConnsCovered I_ConnsAtRest I_MembersHaveConn I_InboundLimit I_UnconditionalExempt I_NoOverflow I_RedialAtRest I_StaleErrStopIsNoop
